@@ -1,0 +1,75 @@
+//go:build verif
+
+package ast
+
+// Verification hook (build tag `verif` only; add-only). The seven tree mutators of BaseNode report
+// every TOP-LEVEL call to VerifTrace before they touch the tree, so that a harness can replay the
+// exact sequence of API calls a Parse made on a model of the tree (/verif component `asttrace`,
+// Lean model GM.Model.AstHeap, property C05 (a)).
+//
+// The mutators call each other (ReplaceChild -> InsertBefore + RemoveChild, InsertAfter ->
+// InsertBefore / AppendChild, InsertBefore -> AppendChild, ensureIsolated -> RemoveChild). Those
+// inner calls are part of the outer call's body and are not reported: a call is reported only when
+// none of its nearest caller frames is one of the mutators.
+
+import (
+	"runtime"
+	"strings"
+)
+
+// VerifTrace, when non-nil, receives every top-level mutator call:
+//
+//	op      self     a          b
+//	append  parent   child      nil
+//	before  parent   v1         insertee
+//	after   parent   v1         insertee
+//	replace parent   v1         insertee
+//	remove  parent   child      nil
+//	clear   parent   nil        nil        (RemoveChildren)
+//	sort    parent   nil        nil        (SortChildren, before; parent is nil when there are no children)
+//	sorted  parent   nil        nil        (SortChildren, after: read the new order from parent)
+//
+// It is a plain package variable: set it only while no other goroutine parses.
+var VerifTrace func(op string, self, a, b Node)
+
+const verifMutatorPrefix = "github.com/yuin/goldmark/ast.(*BaseNode)."
+
+var verifMutators = map[string]bool{
+	"RemoveChild": true, "RemoveChildren": true, "SortChildren": true, "AppendChild": true,
+	"ReplaceChild": true, "InsertAfter": true, "InsertBefore": true,
+}
+
+// verifNested reports whether the mutator that called verifTrace was itself called (directly, or through
+// ensureIsolated / promoted-method wrappers) by another mutator: the first mutator frame above
+// verifTrace is the reporting call itself, any further one among the nearest frames is an outer call.
+func verifNested() bool {
+	var pcs [16]uintptr
+	n := runtime.Callers(2, pcs[:])
+	if n == 0 {
+		return false
+	}
+	frames := runtime.CallersFrames(pcs[:n])
+	seen := 0
+	for {
+		f, more := frames.Next()
+		if strings.HasPrefix(f.Function, verifMutatorPrefix) && verifMutators[f.Function[len(verifMutatorPrefix):]] {
+			seen++
+			if seen == 2 {
+				return true
+			}
+		}
+		if !more {
+			return false
+		}
+	}
+}
+
+func verifTrace(op string, n *BaseNode, self, a, b Node) {
+	if VerifTrace == nil || verifNested() {
+		return
+	}
+	if self == nil && n.firstChild != nil { // SortChildren has no self parameter
+		self = n.firstChild.Parent()
+	}
+	VerifTrace(op, self, a, b)
+}
